@@ -72,6 +72,14 @@ theorem keyword_case_migration (g : Globals) (tables : List (List Stmt))
       (renderMigration { g with lower := false } tables).map toLowerAscii :=
   migration_case_only g tables h
 
+/-- keyword case, migrations whose index types are the ones the MySQL grammar knows: no hypothesis about templates -/
+theorem keyword_case_migration_known_index_types (g : Globals) (tables : List (List Stmt))
+    (h : ∀ ss ∈ tables, ∀ s ∈ ss, ∀ t n cols uniq usingT, s = Stmt.createIndex t n cols uniq usingT →
+      usingT ∈ ["", "BTREE", "HASH", "RTREE", "btree", "hash", "rtree"]) :
+    (renderMigration { g with lower := true } tables).map toLowerAscii =
+      (renderMigration { g with lower := false } tables).map toLowerAscii :=
+  migration_case_only_known g tables h
+
 -- non-vacuity: a statement with an identifier, a literal and a comment in mixed case meets the hypotheses, the two texts
 -- differ (the keywords) and agree up to case; the arguments are the same in both
 def exStmt : Stmt :=
